@@ -833,10 +833,18 @@ fn gen_touch(r: &mut Rng, m: &Model, stamp: u32, conflict: bool) -> (bool, Vec<O
             }
             6 if r.chance(1, 3) => {
                 // one statement assigning the same (equal) value several times
-                pick_node(r, news).map(|a| {
+                let es = existing_edges(m);
+                if !es.is_empty() && r.chance(1, 2) {
+                    // ... on an existing edge
+                    let e = *r.pick(&es);
                     let v = gen_lit(r);
-                    Op::LoopAttr(a, None, format!("l{}_{}", stamp, ops.len()), vec![v.clone(), v.clone(), v])
-                })
+                    Some(Op::LoopAttr(NodeX::Old(e.0), Some(NodeX::Old(e.1)), format!("l{}_{}", stamp, ops.len()), vec![v.clone(), v.clone(), v]))
+                } else {
+                    pick_node(r, news).map(|a| {
+                        let v = gen_lit(r);
+                        Op::LoopAttr(a, None, format!("l{}_{}", stamp, ops.len()), vec![v.clone(), v.clone(), v])
+                    })
+                }
             }
             6 | 7 => {
                 // fresh attribute(s) on some node
@@ -917,7 +925,14 @@ fn gen_touch(r: &mut Rng, m: &Model, stamp: u32, conflict: bool) -> (bool, Vec<O
             (1, Some(t)) => {
                 let v = gen_lit(r);
                 let w = different(r, &v);
-                ops.push(Op::LoopAttr(t, None, format!("d{}", stamp), vec![v.clone(), v, w]));
+                let es = existing_edges(m);
+                if !es.is_empty() && r.chance(1, 2) {
+                    // the loop assigns different values to an attribute of an existing edge
+                    let e = *r.pick(&es);
+                    ops.push(Op::LoopAttr(NodeX::Old(e.0), Some(NodeX::Old(e.1)), format!("d{}", stamp), vec![v.clone(), v, w]));
+                } else {
+                    ops.push(Op::LoopAttr(t, None, format!("d{}", stamp), vec![v.clone(), v, w]));
+                }
             }
             (2, _) if !cands.is_empty() => {
                 // `attr (n) k = <different>, k = <the existing value>`
